@@ -3,6 +3,8 @@ Line-protocol driver: one request per line on stdin, one reply per line on stdou
 Answers come from the executable model only.  Import-free apart from model files (links natively).
 -/
 import WowVerif.Model.DateTime
+import WowVerif.Model.Flag
+import WowVerif.Model.Enum
 namespace WowVerif.Driver
 
 def fnvStep (h : UInt64) (x : UInt64) : UInt64 := (h ^^^ x) * 0x100000001b3
@@ -33,6 +35,214 @@ def dtFieldSweep (lo hi : Nat) : UInt64 × Nat := Id.run do
       h := fnvStep h code
   return (h, oks)
 
+
+/-! ## flags -/
+open Flag in
+partial def parseBitExpr : List String → Option (BitExpr × List String)
+  | "inner" :: r => some (.inner, r)
+  | "rhs" :: r => some (.rhs, r)
+  | "arg" :: r => some (.arg, r)
+  | "unknown" :: r => some (.unknown, r)
+  | "and" :: r => do let (a, r) ← parseBitExpr r; let (b, r) ← parseBitExpr r; pure (.and a b, r)
+  | "or" :: r => do let (a, r) ← parseBitExpr r; let (b, r) ← parseBitExpr r; pure (.or a b, r)
+  | "xor" :: r => do let (a, r) ← parseBitExpr r; let (b, r) ← parseBitExpr r; pure (.xor a b, r)
+  | "not" :: r => do let (a, r) ← parseBitExpr r; pure (.not a, r)
+  | "rev" :: r => do let (a, r) ← parseBitExpr r; pure (.rev a, r)
+  | t :: r => if t.startsWith "c" then (t.drop 1).toNat?.map (fun n => (.const n, r)) else none
+  | [] => none
+
+open Flag in
+partial def parseBoolBody : List String → Option (BoolBody × List String)
+  | "ne0" :: r => do let (a, r) ← parseBitExpr r; pure (.ne0 a, r)
+  | "eq0" :: r => do let (a, r) ← parseBitExpr r; pure (.eq0 a, r)
+  | "orb" :: r => do let (a, r) ← parseBoolBody r; let (b, r) ← parseBoolBody r; pure (.orB a b, r)
+  | "unknownb" :: r => some (.unknown, r)
+  | _ => none
+
+open Flag in
+def parseBody : List String → Option Body
+  | "val" :: r => match parseBitExpr r with
+      | some (e, []) => some (.val e)
+      | _ => none
+  | "test" :: r => match parseBoolBody r with
+      | some (b, []) => some (.test b)
+      | _ => none
+  | _ => none
+
+open Flag in
+def parseRole : String → Option Role
+  | "is" => some .isQ | "set" => some .setQ | "clear" => some .clearQ | "newq" => some .newQ
+  | "empty" => some .empty | "isempty" => some .isEmpty | "all" => some .all | "new" => some .new
+  | "asint" => some .asInt | "opand" => some .opAnd | "opor" => some .opOr | "opxor" => some .opXor
+  | _ => none
+
+open Flag in
+/-- the property's demand for a role, computed directly (independent of `specVal`), used to look for a failing input -/
+def roleWant {w : Nat} (role : Role) (v allV : Nat) (zav : Bool) (env : Env w) : Sum (BitVec w) Bool :=
+  let V := BitVec.ofNat w v
+  match role with
+  | .isQ => .inr ((env.inner &&& V != 0) || (zav && env.inner == 0))
+  | .setQ => .inl (env.inner ||| V)
+  | .clearQ => .inl (env.inner &&& ~~~V)
+  | .newQ => .inl V
+  | .empty => .inl 0
+  | .isEmpty => .inr (env.inner == 0)
+  | .all => .inl (BitVec.ofNat w allV)
+  | .new => .inl env.arg
+  | .asInt => .inl env.inner
+  | .opAnd => .inl (env.inner &&& env.rhs)
+  | .opOr => .inl (env.inner ||| env.rhs)
+  | .opXor => .inl (env.inner ^^^ env.rhs)
+
+def showRes {w : Nat} : Sum (BitVec w) Bool → String
+  | .inl x => toString x.toNat
+  | .inr b => toString b
+
+open Flag in
+def flagItem (w : Nat) (role : Role) (v allV : Nat) (zav : Bool) (body : Body) : String :=
+  if itemOk w role v allV zav body then "ok" else
+  -- search a raw value on which the body misbehaves
+  let ones := 2 ^ w - 1
+  let xs : List Nat := [0, ones, v, ones - (v % (ones + 1)), 0x5555555555555555 % (ones + 1), 0xAAAAAAAAAAAAAAAA % (ones + 1)]
+      ++ (List.range w).map (fun i => 2 ^ i) ++ (List.range w).map (fun i => ones - 2 ^ i)
+  let rs : List Nat := [0x0F0F0F0F0F0F0F0F % (ones + 1), ones, 0]
+  let cands := xs.flatMap fun x => rs.map fun r => (x, r)
+  let bad := cands.find? fun (x, r) =>
+    let env : Env w := ⟨BitVec.ofNat w x, BitVec.ofNat w r, BitVec.ofNat w r⟩
+    match body.run? env, roleWant role v allV zav env with
+    | some (.inl a), .inl b => a != b
+    | some (.inr a), .inr b => a != b
+    | some _, _ => true
+    | none, _ => false
+  match bad with
+  | some (x, r) =>
+    let env : Env w := ⟨BitVec.ofNat w x, BitVec.ofNat w r, BitVec.ofNat w r⟩
+    let got := match body.run? env with | some g => showRes g | none => "?"
+    s!"fail x={x} rhs={r} arg={r} got={got} want={showRes (roleWant role v allV zav env)}"
+  | none => "fail nowitness"
+
+/-! ## enums -/
+def splitSections (ws : List String) : List (List String) :=
+  let rec go (acc cur : List String) : List String → List (List String)
+    | [] => [cur.reverse]
+    | ";" :: r => cur.reverse :: go [] [] r
+    | w :: r => go acc (w :: cur) r
+  go [] [] ws
+
+def parseInt? (s : String) : Option Int := s.toInt?
+def pairNI (s : String) : Option (Nat × Int) := match s.splitOn ":" with
+  | [a, b] => do let a ← a.toNat?; let b ← b.toInt?; pure (a, b)
+  | _ => none
+def pairIN (s : String) : Option (Int × Nat) := match s.splitOn ":" with
+  | [a, b] => do let a ← a.toInt?; let b ← b.toNat?; pure (a, b)
+  | _ => none
+
+open Enum in
+def parseConv (s : String) : Option (IntTy × Conv) := match s.splitOn ":" with
+  | [b, sg, sh] => do
+      let b ← b.toNat?
+      let c : Conv := match sh with
+        | "direct" => .direct | "into" => .into | "reinterpret" => .reinterpret | "checked" => .checked | _ => .unknown
+      pure (⟨b, sg == "1"⟩, c)
+  | _ => none
+
+def showExc : Except Int Nat → String
+  | .ok v => s!"ok:{v}"
+  | .error n => s!"err:{n}"
+
+open Enum in
+def enumCk (ws : List String) : String :=
+  match splitSections ws with
+  | [[bits, sg, nameC], vars, decl, asint, fromint, [wild], convs, [wname, wbits, wsg], wen] =>
+    let r? : Option (RustEnum × WowmEnum) := do
+      let bits ← bits.toNat?
+      let nameC ← nameC.toNat?
+      let vars ← vars.mapM (·.toNat?)
+      let decl ← decl.mapM (·.toNat?)
+      let asint ← asint.mapM pairNI
+      let fromint ← fromint.mapM pairIN
+      let convs ← convs.mapM parseConv
+      let wname ← wname.toNat?
+      let wbits ← wbits.toNat?
+      let wen ← wen.mapM pairNI
+      pure ({ base := ⟨bits, sg == "1"⟩, nameConst := nameC, variants := vars, declared := decl, asInt := asint,
+              fromInt := fromint, wildcardReportsValue := wild == "1", tryFrom := convs },
+            { name := wname, base := ⟨wbits, wsg == "1"⟩, enumerators := wen })
+    match r? with
+    | none => "bad-op"
+    | some (r, d) =>
+      if enumOk r d then "ok" else
+      -- search an integer on which the generated code deviates from the definition
+      let vals := d.enumerators.map (·.2)
+      let cands : List Int := (vals ++ r.fromInt.map (·.1) ++ r.asInt.map (·.2)).flatMap fun v =>
+        [v, v + 1, v - 1, v + 256, v + 65536, v + 4294967296, v - 256, -v]
+      let cands := cands ++ [0, -1, 127, 128, 255, 256, 32767, 32768, 65535, 65536, 2147483647, 2147483648, 4294967295, 4294967296,
+        -128, -129, -32768, -32769, -2147483648, -2147483649]
+      let bad1 := cands.find? fun n => d.base.inRange n && (match r.fromIntF n, d.lookup n with
+        | .ok a, .ok b => a != b | .error a, .error b => a != b || !r.wildcardReportsValue | _, _ => true)
+      match bad1 with
+      | some n => s!"fail from_int n={n} got={showExc (r.fromIntF n)} want={showExc (d.lookup n)}"
+      | none =>
+        let bad2 := d.enumerators.find? fun (x, v) => r.asIntF x != some v
+        match bad2 with
+        | some (x, v) => s!"fail as_int variant={x} got={r.asIntF x} want={v}"
+        | none =>
+          if r.variants != d.enumerators.map (·.1) then s!"fail variants got={r.variants} want={d.enumerators.map (·.1)}" else
+          let bad3 := r.tryFrom.findSome? fun (src, c) =>
+            (cands.find? fun n => src.inRange n && (match r.tryFromF src c n with
+              | some g => (match g, d.specTryFrom src n with
+                  | .ok a, .ok b => a != b | .error a, .error b => a != b | _, _ => true)
+              | none => false)).map fun n => (src, c, n)
+          match bad3 with
+          | some (src, c, n) =>
+            let g := match r.tryFromF src c n with | some g => showExc g | none => "?"
+            s!"fail try_from src={if src.signed then "i" else "u"}{src.bits} n={n} got={g} want={showExc (d.specTryFrom src n)}"
+          | none => "fail nowitness"
+  | _ => "bad-op"
+
+/-! ## specification-side answers for the correspondence of flags and enums -/
+def pairSN (s : String) : Option (String × Nat) := match s.splitOn ":" with
+  | [a, b] => do let b ← b.toNat?; pure (a, b)
+  | _ => none
+
+/-- `flagspec <w> <zav> <raw> <rhs> NAME:value ...` — what the property demands, in the harness' output format -/
+def flagSpec (w : Nat) (zav : Bool) (raw rhs : Nat) (ens : List (String × Nat)) : String :=
+  let m := 2 ^ w
+  let x := raw % m
+  let r := rhs % m
+  let allV := ens.foldl (fun acc p => acc ||| (p.2 % m)) 0
+  let head := s!"new={x} empty=0 isempty={x == 0} all={allV} and={x &&& r} or={x ||| r} xor={x ^^^ r} anda={x &&& r} ora={x ||| r} xora={x ^^^ r}"
+  let per := ens.filter (fun p => p.2 % m != 0) |>.map fun (n, v) =>
+    let v := v % m
+    let isq := (x &&& v != 0) || (zav && x == 0)
+    let cl := x &&& (m - 1 - v)
+    s!" {n}:is={isq},new={v},set={x ||| v},{x ||| v},clear={cl},{cl}"
+  let cs := ens.map fun (n, v) => s!" const:{n}={v % m}"
+  head ++ String.join per ++ String.join cs
+
+open Enum in
+/-- value-preserving, or bitwise for a same-width integer of the other signedness -/
+def flagConvSpec (w : Nat) (src : IntTy) (n : Int) : String :=
+  let base : IntTy := ⟨w, false⟩
+  if !src.inRange n then "skip" else
+  if src.bits = w ∧ src.signed then s!"some {reinterp base n}"
+  else if base.inRange n then s!"some {n}" else "none"
+
+open Enum in
+def enumSpec (ws : List String) : String :=
+  match splitSections ws with
+  | [[sb, ss, n], [bb, bs], wen] =>
+    match sb.toNat?, n.toInt?, bb.toNat?, wen.mapM pairNI with
+    | some sb, some n, some bb, some wen =>
+      let src : IntTy := ⟨sb, ss == "1"⟩
+      let d : WowmEnum := { name := 0, base := ⟨bb, bs == "1"⟩, enumerators := wen }
+      if !src.inRange n then "skip" else
+      match d.specTryFrom src n with
+      | .ok v => s!"ok {v} {match d.enumerators.lookup v with | some x => x | none => 0}"
+      | .error e => s!"err {e}"
+    | _, _, _, _ => "bad-op"
+  | _ => "bad-op"
+
 def handle (ws : List String) : String :=
   match ws with
   | ["dt", n] => match n.toNat? with
@@ -47,6 +257,20 @@ def handle (ws : List String) : String :=
   | ["dtfields", a, b] => match a.toNat?, b.toNat? with
       | some lo, some hi => let (h, k) := dtFieldSweep lo hi; s!"digest {h} ok={k}"
       | _, _ => "bad-op"
+  | "enumck" :: rest => enumCk rest
+  | "enumspec" :: rest => enumSpec rest
+  | "flagspec" :: w :: zav :: raw :: rhs :: ens =>
+      match w.toNat?, raw.toNat?, rhs.toNat?, ens.mapM pairSN with
+      | some w, some raw, some rhs, some ens => flagSpec w (zav == "1") raw rhs ens
+      | _, _, _, _ => "bad-op"
+  | ["flagconvspec", w, sb, ss, n] =>
+      match w.toNat?, sb.toNat?, n.toInt? with
+      | some w, some sb, some n => flagConvSpec w ⟨sb, ss == "1"⟩ n
+      | _, _, _ => "bad-op"
+  | "flagitem" :: w :: role :: v :: allV :: zav :: body =>
+      match w.toNat?, parseRole role, v.toNat?, allV.toNat?, parseBody body with
+      | some w, some role, some v, some allV, some body => flagItem w role v allV (zav == "1") body
+      | _, _, _, _, _ => "bad-op"
   | _ => "bad-op"
 
 end WowVerif.Driver
